@@ -367,6 +367,57 @@ func (t *translator) switchAsIf(x *ast.SwitchStmt) ast.Stmt {
 }
 
 func init() {
+	areas["cliselect"] = &area{
+		name:   "cliselect",
+		module: "CliSelectGen",
+		header: []string{
+			"From Coq Require Import ZArith List Bool String.",
+			"From Shoot Require Import Base.Str Model.Cli Bridge.GoPrims Bridge.CliSelPrims.",
+		},
+		section: []string{
+			"Section Gen.",
+			"Variable getGoFile_o : string -> string.   (* getGoFile(g.pkg, T) *)",
+			"Variable ListTypes_o : list string.         (* typeLister.ListTypes() *)",
+			"",
+		},
+		footer: []string{"End Gen."},
+		world:  "CliSelPrims.sworld",
+		funcs: []fnSpec{
+			{file: "internal/shoot/common.go", name: "Contains", inst: map[string]string{"T": "string"}},
+			{file: "internal/shoot/generatorbase.go", name: "GeneratorBase.confirmTypes"},
+		},
+		types: map[string]string{
+			"bool": "bool", "string": "string", "int": "Z", "[]string": "(list string)",
+			"*GeneratorBase": "-", "TypeLister": "-", "*packages.Package": "-",
+			"*CommonFlags": "CliSelPrims.sworld", "map[string]string": "(list (string * string))",
+		},
+		ptrs: map[string]bool{},
+		wrecv: map[string]map[string]wfield{
+			"*GeneratorBase": {
+				"isTypeSpecified": {get: "(CliSelPrims.sw_specified w)", typ: "bool"},
+				"commonFlags":     {get: "w", typ: "*CommonFlags"},
+				"pkg":             {get: "tt", typ: "*packages.Package"},
+				"fileNameMap":     {get: "(CliSelPrims.sw_fmap w)", typ: "map[string]string"},
+			},
+		},
+		records: map[string]map[string]recField{
+			"*CommonFlags": {
+				"TypeNames": {"CliSelPrims.sw_types", "", "[]string"},
+				"FileName":  {"CliSelPrims.sw_file", "", "string"},
+			},
+		},
+		wsets: map[string]string{"*GeneratorBase.commonFlags.TypeNames": "CliSelPrims.set_types"},
+		wmaps: map[string]string{"*GeneratorBase.fileNameMap": "CliSelPrims.fmap_set"},
+		prims: map[string]prim{
+			"getGoFile":            {coq: "getGoFile_o", args: []int{1}, results: []string{"string"}},
+			"TypeLister.ListTypes": {coq: "ListTypes_o", args: nil, results: []string{"[]string"}},
+		},
+		fatals: map[string]bool{"logx.Fatalf": true},
+		nilPan: "PNilDeref",
+	}
+}
+
+func init() {
 	cl := func(get, set, typ string) recField { return recField{"CtorPrims." + get, "CtorPrims." + set, typ} }
 	areas["ctorshadow"] = &area{
 		name:   "ctorshadow",
